@@ -8,12 +8,16 @@ import json, os, subprocess, sys, shutil, time
 VERIF = os.path.dirname(os.path.dirname(os.path.abspath(__file__)))
 PY = "/venv/bin/python"
 ROUND = int(os.environ.get("SEED_ROUND", "2"))
-MAP = {"a": "c", "b": "d", "c": "e"} if ROUND == 2 else {"a": "f", "b": "g"}
+MAP = {2: {"a": "c", "b": "d", "c": "e"}, 3: {"a": "f", "b": "g"}, 4: {"a": "h", "b": "i"}}[ROUND]
 ORIGIN = {2: "independent sub-agent (round 2) given only the property text and a scratch worktree; asked for three changes on "
              "different mechanisms, at least one needing two cooperating sites or a multi-step history",
           3: "independent sub-agent (round 3) given only the property text and a scratch worktree; asked for (a) a plausible 'improvement' "
              "(optimisation, caching, reordering, view instead of copy, simplified guard) that is wrong only in a corner and (b) a defect on "
-             "an error / exit / restart / recovery path; the most obvious site for the property was excluded"}[ROUND]
+             "an error / exit / restart / recovery path; the most obvious site for the property was excluded",
+          4: "independent sub-agent (round 4) given only the property text and a scratch worktree; asked for (a) an interaction defect - the edit "
+             "in a shared helper / data structure (util, params, diagnostic_info, Model accessors, result classes), visible through one caller or "
+             "option only - and (b) a numerical / boundary defect (tolerance, constant, < vs <=, off-by-one, order of floating-point operations) "
+             "that matters only at exact ties, extreme scalings, n = 1 / m = 1 or a count equal to its limit"}[ROUND]
 
 
 def sh(cmd):
